@@ -72,6 +72,7 @@ type c11ctx struct {
 	base     *simfs.FS
 	baseline map[string]map[string]baseMsg // folder -> MID -> message as loaded before the operation
 	opName   string
+	requeue  bool   // AddOut of a MID that is already in sent/ (resend)
 	target   string // MID the operation is about ("" for prepare)
 	newMsg   *built // inbound / addout: the message being stored
 	full     []byte // inbound: the complete file content a fault-free ProcessInbound leaves
@@ -213,9 +214,12 @@ func (x *c11ctx) setup(sim *core.Sim) (ok bool) {
 		}
 		_, o := x.baseline["out"][b.def.MID]
 		_, s := x.baseline["sent"][b.def.MID]
-		if o || s {
-			return false // MIDs are unique
+		if o {
+			return false // MIDs are unique within the outbox
 		}
+		// A message that was sent earlier may be queued again (resend): the copy in
+		// sent/ is a previously stored message and must survive a crash of AddOut.
+		x.requeue = s
 		x.opName, x.target, x.newMsg = "AddOut", b.def.MID, b
 	case "setsent":
 		mids := core.SortedKeys(x.baseline["out"])
@@ -434,6 +438,9 @@ func (x *c11ctx) execFault(t *testing.T, fault simfs.Fault, keep bool, seen map[
 					}
 				}
 				for _, mid := range core.SortedKeys(outbound) {
+					if x.opName == "AddOut" && x.requeue && mid == x.target {
+						continue // queued again on purpose: legitimately in both folders once AddOut completed
+					}
 					n := 0
 					var where *fbb.Message
 					for _, f := range []string{"out", "sent"} {
@@ -452,7 +459,7 @@ func (x *c11ctx) execFault(t *testing.T, fault simfs.Fault, keep bool, seen map[
 				}
 				if x.opName == "AddOut" {
 					// the one being added may be absent, but never in both
-					if loaded["out"][x.target] != nil && loaded["sent"][x.target] != nil {
+					if !x.requeue && loaded["out"][x.target] != nil && loaded["sent"][x.target] != nil {
 						viol("outbound-partition", x.opName+"/"+phase, "the added message %s is in both out/ and sent/", x.target)
 					}
 				}
@@ -810,6 +817,9 @@ func genC11(tier string, r *core.Rand, run int) C11Plan {
 		plan.Op = C11Op{K: "inbound", M: 0}
 	case 1:
 		plan.Op = C11Op{K: "addout", M: 0}
+		if r.Chance(0.2) { // queue again a message that was sent before
+			plan.State = append(plan.State, C11Item{M: 0, F: "sent"})
+		}
 	case 2:
 		plan.Op = C11Op{K: "setsent", M: r.Intn(8)}
 		if r.Chance(0.7) { // make sure there is something to send
